@@ -55,7 +55,11 @@ func hexDigitLower(v uint16) byte {
 //@ ensures alias: sameOrFresh(result, dst)
 //@ ensures length: len(result) == len(dst)+6
 //@ ensures prefix: vForall(0, len(dst), func(i int) bool { return result[i] == old(dst[i]) })
-//@ ensures bytes: result[len(dst)] == '\\' && result[len(dst)+1] == 'u' && result[len(dst)+2] == hexDigitLower(x/4096) && result[len(dst)+3] == hexDigitLower(x/256%16) && result[len(dst)+4] == hexDigitLower(x/16%16) && result[len(dst)+5] == hexDigitLower(x%16)
+//@ ensures bytes01: result[len(dst)] == '\\' && result[len(dst)+1] == 'u'
+//@ ensures bytes2: result[len(dst)+2] == hexDigitLower(x/4096)
+//@ ensures bytes3: result[len(dst)+3] == hexDigitLower(x/256%16)
+//@ ensures bytes4: result[len(dst)+4] == hexDigitLower(x/16%16)
+//@ ensures bytes5: result[len(dst)+5] == hexDigitLower(x%16)
 
 // escASCIILen/escASCIIByte: the escaped spelling of an ASCII character that
 // must be escaped: the two-character forms of RFC 8259 where they exist,
